@@ -230,6 +230,9 @@ func (X *Exec) havocAll(st *State, tag string) {
 	}
 	var stable []kept
 	for _, sr := range st.Stable {
+		if os.Getenv("GOVC_NOSTABLE") != "" {
+			break
+		}
 		stable = append(stable, kept{sr, X.E.TS.Select(X.heap(st, sr.Heap, sr.Sort), sr.Ref)})
 	}
 	defer func() {
